@@ -487,8 +487,11 @@ func cmdCheck(args []string) {
 			if fr.Config != "PROD" {
 				continue
 			}
-			if w, ok := want[fr.Name]; ok && fr.Obligations < w {
-				short = append(short, fmt.Sprintf("%s: %d < %d", fr.Name, fr.Obligations, w))
+			// a function that used to carry obligations and now carries none, or
+			// fewer than half, means the harness went blind (a harmless edit may
+			// remove a few obligations; it does not remove most of them)
+			if w, ok := want[fr.Name]; ok && w > 0 && (fr.Obligations == 0 || 2*fr.Obligations < w) {
+				short = append(short, fmt.Sprintf("%s: %d obligations, %d recorded", fr.Name, fr.Obligations, w))
 			}
 		}
 		for n := range want {
